@@ -51,8 +51,8 @@ Definition r_perm_ok (h : list rtev) : Prop :=
 Lemma perm_ok_prefix h e : r_perm_ok (h ++ [e]) -> r_perm_ok h.
 Proof.
   intros (N & Ab & Ok & Nc & An). repeat split.
-  - rewrite r_reqs_of_app in N. destruct e; simpl in N; rewrite ?app_nil_r in N; auto.
-    apply NoDup_remove in N. now rewrite app_nil_r in N.
+  - rewrite r_reqs_of_app in N. destruct e; simpl in N; rewrite ?app_nil_r in N; auto;
+      apply NoDup_remove in N; now rewrite app_nil_r in N.
   - intros x Hx. apply Ab. apply in_or_app; now left.
   - intros r Hr. apply Ok. rewrite r_resps_app. apply in_or_app; now left.
   - rewrite r_resps_app, map_app in Nc. destruct e; simpl in Nc; rewrite ?app_nil_r in Nc; auto.
@@ -427,7 +427,7 @@ Proof.
   pose proof (perm_ok_cseq _ P0) as C0.
   destruct P0 as (N0 & _ & Ok0 & Nc0 & _). destruct P as (N & Ab & _ & _ & _).
   rewrite r_reqs_of_app, r_resps_app in *.
-  destruct e as [w a|r|w|w|w]; cbn [r_reqs_of r_resps flat_map app] in *; rewrite ?app_nil_r in *.
+  destruct e as [w a|r|w|w|w|w]; cbn [r_reqs_of r_resps flat_map app] in *; rewrite ?app_nil_r in *.
   - (* RReq *) rewrite ?app_nil_r. now apply RP_req.
   - (* RResp *) rewrite ?app_nil_r. rewrite app_length in L1. simpl in L1.
     apply RP_resp; [assumption|lia|assumption].
@@ -457,6 +457,7 @@ Proof.
         rewrite E. simpl. now rewrite app_nil_r.
   - exfalso. assert (true = false) by (apply (Ab (RTimeout w)); apply in_or_app; right; now left). discriminate.
   - exfalso. assert (true = false) by (apply (Ab (RCancel w)); apply in_or_app; right; now left). discriminate.
+  - exfalso. assert (true = false) by (apply (Ab (RReqFail w)); apply in_or_app; right; now left). discriminate.
 Qed.
 
 Lemma RP_reach h : r_perm_ok h ->
@@ -525,7 +526,7 @@ Qed.
 Fixpoint ans_okb (n : nat) (h : list rtev) : bool :=
   match h with
   | [] => true
-  | RReq _ _ :: t => ans_okb (S n) t
+  | RReq _ _ :: t | RReqFail _ :: t => ans_okb (S n) t
   | RResp r :: t => match h_cseq r with Some c => c <? n | None => false end && ans_okb n t
   | _ :: t => ans_okb n t
   end.
@@ -546,6 +547,7 @@ Proof.
     + exact (IH n H pre post eq_refl r Hr).
     + exact (IH n H pre post eq_refl r Hr).
     + exact (IH n H pre post eq_refl r Hr).
+    + destruct (IH (S n) H pre post eq_refl r Hr) as (c & Ec & Lc). exists c. split; [assumption|lia].
 Qed.
 
 Lemma ans_okb_sound h : ans_okb 0 h = true -> r_answers_ok h.
